@@ -338,7 +338,13 @@ def _map(items: List[Tuple[str, str, str]], workers: int) -> Iterator[Dict[str, 
 
     mpctx = multiprocessing.get_context("fork")
     with mpctx.Pool(workers) as pool:
-        yield from pool.imap(_work, items, chunksize=1)
+        it = pool.imap(_work, items, chunksize=1)
+        for name, _stream, _text in items:
+            try:
+                yield it.next(timeout=1200)
+            except multiprocessing.TimeoutError:
+                # a lost worker or a generator that does not terminate: a harness problem (exit 2), never a silent hang
+                raise RuntimeError(f"no result for the model {name!r} within 1200 s")
 
 
 def oracle(ctx: Ctx) -> None:
